@@ -145,6 +145,16 @@ def run_shard(shard):
                             res.violate(violation(f'{op}:twice', f'{name} {op} applied twice keys {ka}', case_for(ka), show(dict(zip(ka, a.values()))), show(g2), repro))
                     except Exception as e:
                         res.violate(violation(f'{op}:twice:raises', f'{name} {op} twice keys {ka}: {type(e).__name__}', case_for(ka), '', repr(e), repro))
+            # the operators read the *current* coefficients: after the stored list is changed in place (public: mv.values()[i] = v),
+            # nothing remembered on the object from an earlier call may be served again
+            if ka:
+                a.values()[0] = P.var('changed')
+                for op in UNARY:
+                    res.evals += 1
+                    exp = {k: (v if inv_sign(op, gr[k]) > 0 else -v) for k, v in zip(ka, a.values())}
+                    meth = {'neg': lambda x: -x, 'reverse': lambda x: ~x, 'involute': lambda x: x.involute(), 'conjugate': lambda x: x.conjugate()}[op]
+                    run(f'{op}:after-inplace-change', f'{name} {op} keys {ka} after an in-place change of the first coefficient', case_for(ka), exp, lambda: meth(a),
+                        head + f"a = alg.multivector(keys={tuple(ka)}, name='a'); ~a; a.values()[0] = 7; print(~a)")
             if len(res.samples) < 1 and len(ka) >= 3:
                 res.sample({'config': name, 'op': 'conjugate', 'keys': list(ka), 'reference': show({k: inv_sign('conjugate', gr[k]) for k in ka})})
     elif kind == 'grade':
